@@ -291,10 +291,12 @@ C15_CONFIGS = [
     ('ARCH_UNKNOWN', ['-DGLM_FORCE_ARCH_UNKNOWN']), ('DEFAULT_ALIGNED_PURE', ['-DGLM_FORCE_DEFAULT_ALIGNED_GENTYPES', '-DGLM_FORCE_PURE']),
     ('CXX98_XYZW_CTORINIT', ['-DGLM_FORCE_CXX98', '-DGLM_FORCE_XYZW_ONLY', '-DGLM_FORCE_CTOR_INIT']),
     ('SIZE_T_INLINE_EXPLICIT', ['-DGLM_FORCE_SIZE_T_LENGTH', '-DGLM_FORCE_INLINE', '-DGLM_FORCE_EXPLICIT_CTOR']),
+    ('CXX_UNKNOWN', ['-DGLM_FORCE_CXX_UNKNOWN']),
 ]
 C15_UNITS_QUICK = ['C12', 'C13']
 C15_UNITS_THOROUGH = ['C12', 'C13', 'C04', 'C01', 'C02', 'C09', 'C10']
 C15_QUICK_CONFIGS = 8          # the first n configurations in the quick tier
+C15_EXTRA_QUICK = [('C02', ['CXX98'])]
 
 
 def canon_run_line(l):
@@ -442,7 +444,10 @@ def run_cfg(prop, tier, seed):
     lines_known = []
     pairs = same = differing = 0
     runs_compared = 0
-    for uf in unit_files:
+    # quick tier: besides C12/C13 under the first configurations, the matrix unit table under the pre-C++11 language level only — that is where
+    # glm compiles the other branch of its ~270 `#if GLM_HAS_INITIALIZER_LISTS` constructor bodies
+    extra = [] if tier == 'thorough' else [(uf, [c for c in C15_CONFIGS if c[0] in cs]) for uf, cs in C15_EXTRA_QUICK]
+    for uf, ufconfigs in [(uf, configs) for uf in unit_files] + extra:
         bins0, err0 = build_units(uf)
         if err0: unexplained.append('default build of %s failed: %s' % (uf, err0[-300:])); continue
         base = os.path.join(CACHE, 'C15_%s_default.units' % uf)
@@ -450,7 +455,7 @@ def run_cfg(prop, tier, seed):
         if e: unexplained.append(e); continue
         run0 = os.path.join(CACHE, 'C15_%s_default.run' % uf)
         run_bins(bins0, ['run', str(seed), '40'], run0)
-        for cname, flags in configs:
+        for cname, flags in ufconfigs:
             binsc, errc = build_units(uf, extra_flags=flags, tag='_' + cname)
             if errc:
                 unexplained.append('configuration %s: units of %s do not compile: %s' % (cname, uf, errc[-300:])); continue
